@@ -4310,6 +4310,7 @@ impl ZonedRound {
             .date()
             .tomorrow()
             .and_then(|date| date.to_zoned(zdt.time_zone().clone()))
+            .and_then(|zdt| zdt.start_of_day())
             .with_context(|| {
                 err!("failed to find start of the day after {start}")
             })?;
